@@ -380,7 +380,7 @@ def gen_shp(rng, klass):
             else:
                 ops.append(("g", rng.randrange(nprox), "freeform"))
             nshapes += 1
-        elif r < 0.82:
+        elif r < 0.82 and klass != "turbo":
             ops.append(("n", "slide"))
             nprox += 1
             is_slide.append(True)
@@ -802,7 +802,7 @@ def run_history(env, hseed, nops, viol, stats):
             cur = {numeric_reading(e.get("id")) for e in cn}
             for e in cn[1:]:
                 if rng.random() < 0.4:
-                    v = rng.choice([2147483647, 4294967290, 100, 77, 12])
+                    v = rng.choice([2147483647, 2147483600, 100, 77, 12])
                     if v not in cur and not s._element.xpath("//@id[.='%d']" % v):
                         # keep references (a:stCxn etc.) consistent: only retarget ids nobody refers to
                         old = e.get("id")
@@ -883,7 +883,16 @@ def run_history(env, hseed, nops, viol, stats):
         except Exception as e:  # noqa
             log.append(k + "!" + type(e).__name__)
             rec["log"] = log
-            viol.append(("history-op-raises", "history step %d (%s) raised %s: %s" % (step, k, type(e).__name__, e), dict(rec)))
+            # charged to C06 only when the exception comes out of one of the allocators
+            names, tb = set(), e.__traceback__
+            while tb is not None:
+                names.add(tb.tb_frame.f_code.co_name)
+                tb = tb.tb_next
+            if names & ALLOC_FUNCS:
+                viol.append(("history-alloc-raises", "history step %d (%s) raised %s inside %s: %s" % (
+                    step, k, type(e).__name__, sorted(names & ALLOC_FUNCS), e), dict(rec)))
+            else:
+                stats["raised:" + type(e).__name__] = stats.get("raised:" + type(e).__name__, 0) + 1
             break
         log.append(k)
         stats[k.split("(")[0]] = stats.get(k.split("(")[0], 0) + 1
@@ -907,6 +916,8 @@ def run_history(env, hseed, nops, viol, stats):
     return len(log)
 
 
+ALLOC_FUNCS = {"_next_shape_id", "max_shape_id", "_next_id", "add_sldId", "_next_rId", "next_partname", "next_image_partname",
+               "next_media_partname", "rename_slide_parts", "_next_slide_partname", "_next_cTn_id", "_next_ph_name", "drop_rel"}
 _CORPUS = None
 
 
@@ -942,7 +953,10 @@ def snapshot_check(prs, state, viol, rec, when, allow_drop):
         viol.append(("slide-partname-order", "%s: slide part names %r, expected %r" % (when, got, want), rec))
     # 3. slide ids unique, in range, stable
     sids = [s.slide_id for s in slides]
-    if len(set(sids)) != len(sids) or any(not (256 <= i <= MAXS) for i in sids):
+    bad_ids = len(set(sids)) != len(sids) or any(not (256 <= i <= MAXS) for i in sids)
+    if when == "initial":
+        state["input_slide_ids_invalid"] = bad_ids      # a deck that already breaks the rule is not charged to the library
+    elif bad_ids and not state.get("input_slide_ids_invalid"):
         viol.append(("slide-id-history", "%s: slide ids %r not unique / not in 256..2147483647" % (when, sids), rec))
     for s in slides:
         key = id(s.part)
@@ -990,6 +1004,11 @@ def snapshot_check(prs, state, viol, rec, when, allow_drop):
             for a in ("id", "embed", "link"):
                 for v in el.xpath("//@r:%s" % a):
                     if v and v not in rels:
+                        if when == "initial":
+                            state.setdefault("dangling0", set()).add((id(p), v))
+                            continue
+                        if (id(p), v) in state.get("dangling0", ()):
+                            continue
                         viol.append(("rid-dangling", "%s: %s references r:%s=%r which is not a relationship of the part" % (when, p.partname, a, v), rec))
                         break
 
@@ -1088,33 +1107,35 @@ def nontrivial(case):
 def gen_cases(tier, rng):
     q = tier == "quick"
     cases = []
-    for _ in range(12000 if q else 120000):
-        cases.append(gen_int(rng))
-    for s in ID_POOL_ODD + ["٢", "rId", "0", "00", "-0", "+0", " ", "_1", "1_", "1__0", " 1 "]:
-        cases.append({"op": "int", "s": s})
-    for klass, n in (("plain", 260 if q else 2600), ("odd", 90 if q else 900), ("turbo", 60 if q else 600)):
-        for _ in range(n):
-            cases.append(gen_shp(rng, klass))
-    # the witness of C06_turbo_refuted and of C06_shape_nondecimal_crash, always present
+    # the witnesses of C06_turbo_refuted, C06_shape_nondecimal_crash and
+    # C06_slide_partname_unlisted_refuted come first so that they are the recorded inputs
     cases.append({"op": "shp", "klass": "turbo", "sids": ["1"], "oids": [], "nconn": 0,
                   "ops": [("t", 0), ("g", 0, "group"), ("n", "grp"), ("m", 0, "shape", 0)]})
     cases.append({"op": "shp", "klass": "odd", "sids": ["1", "²"], "oids": [], "nconn": 0, "ops": [("m", 0, "textbox", 0)]})
-    for _ in range(150 if q else 1500):
+    cases.append({"op": "ren", "klass": "odd", "names": ["/ppt/slides/slide1.xml", "/ppt/slides/slide2.xml"], "listed": [0]})
+    for _ in range(60000 if q else 400000):
+        cases.append(gen_int(rng))
+    for s in ID_POOL_ODD + ["٢", "rId", "0", "00", "-0", "+0", " ", "_1", "1_", "1__0", " 1 "]:
+        cases.append({"op": "int", "s": s})
+    for klass, n in (("plain", 2600 if q else 16000), ("odd", 900 if q else 5000), ("turbo", 500 if q else 3000)):
+        for _ in range(n):
+            cases.append(gen_shp(rng, klass))
+    for _ in range(1000 if q else 6000):
         ids = [rng.choice(["1", "2", "3", "7", "x", "", "²", "٣", " 4", "4294967296", "-2", "1_0"]) for _ in range(rng.randint(0, 5))]
         cases.append({"op": "ctn", "ids": ids})
-    for klass, n in (("valid", 200 if q else 2000), ("odd", 150 if q else 1500)):
+    for klass, n in (("valid", 1500 if q else 9000), ("odd", 1000 if q else 6000)):
         for _ in range(n):
             cases.append(gen_sld(rng, klass))
     cases.append({"op": "sld", "klass": "odd", "ids": ["256", "2147483648"], "n": 1})        # C06_slide_id_oob_stop
     cases.append({"op": "sld", "klass": "odd", "ids": ["256", "256", "257", str(MAXS)], "n": 1})  # C06_slide_id_dup_refuted
     cases.append({"op": "sld", "klass": "valid", "ids": [str(MAXS)], "n": 3})
-    for klass, n in (("canon", 220 if q else 2200), ("odd", 130 if q else 1300)):
+    for klass, n in (("canon", 1800 if q else 11000), ("odd", 1000 if q else 6000)):
         for _ in range(n):
             cases.append(gen_rid(rng, klass))
-    for op, n in (("pn", 140 if q else 1400), ("img", 80 if q else 800), ("med", 80 if q else 800)):
+    for op, n in (("pn", 1200 if q else 7000), ("img", 700 if q else 4000), ("med", 700 if q else 4000)):
         for _ in range(n):
             cases.append(gen_names(rng, op))
-    for klass, n in (("valid", 90 if q else 900), ("odd", 60 if q else 600)):
+    for klass, n in (("valid", 700 if q else 4000), ("odd", 500 if q else 3000)):
         for _ in range(n):
             cases.append(gen_ren(rng, klass))
     return cases
@@ -1146,7 +1167,7 @@ def run(ck, tier, rng):
         model_in.append(["tab"])
         ck.count("tab-0x110000-code-points", True, "tab")
         # history level
-        nh, nops = (30, 22) if tier == "quick" else (300, 30)
+        nh, nops = (150, 24) if tier == "quick" else (1500, 30)
         hstats = {}
         hsteps = 0
         for _ in range(nh):
@@ -1207,7 +1228,16 @@ def entry_point(rec):
 
 
 def replay(rec):
-    case = rec["input"]
+    case = rec.get("input")
+    if not isinstance(case, dict) or "op" not in case:
+        print("no input stored in this record:", rec.get("what") or rec.get("theorem_or_correspondence"))
+        return 1
+    if case["op"] == "tab":
+        mo = run_model("C06", [["tab"]])[0]
+        io_ = python_tables()[0]
+        print("impl ", io_[:200])
+        print("model", mo[:200])
+        return 0 if io_ == mo else 1
     env = Env(random.Random(0))
     viol = []
     try:
